@@ -6,7 +6,7 @@ from google.protobuf.descriptor import FieldDescriptor as FD
 
 from .base import Fail, forall, client_method_name
 from . import values
-from .rig import Rig, to_python, to_bytes
+from .rig import Rig, to_python, to_bytes, python_class
 from .c02 import check_json_keys
 from .c06 import header_pairs, get_path, set_string
 from ..refmodels import transcoding as T, routing as R, paging as P
@@ -125,9 +125,13 @@ def exercise(ctx):
                     for r in reps:
                         r.next_page_token = ""
 
+                # a streamed reply of a type that is not proto-plus is parsed by api-core's ResponseIterator, which does not
+                # tolerate unknown fields there: that is the runtime library's behaviour, not something the generator emits
+                tolerant = not (m.get("ss") and not python_class(ctx, m["output"])[1])
+
                 def reply_json(r):
                     d = json.loads(json_format.MessageToJson(r))
-                    if unknown and isinstance(d, dict):
+                    if unknown and tolerant and isinstance(d, dict):
                         d["unknownFieldFromANewerServer"] = {"x": [1, "two"]}
                     return d
 
